@@ -1,4 +1,5 @@
 import Tpp.Lemmas.Input
+import Tpp.Lemmas.Reads
 /-!
 C06 – the token stream is independent of how input bytes are split across reads, and every delivery
 results in exactly one callback.
@@ -57,5 +58,46 @@ example :
                seq := .ctrl { initiator := 0x5B, command := 0x41, metaFlag := false, args := [[0x35]], extender := 0 } },
         .key { key := 0x61, mods := 0, rep := 1, seq := .byte 0x61 }]]
     ∧ (deliverAll chunks0 st0).callbacks = 5 := by decide
+
+
+/-! ### Several reads posted
+
+The statements above are about a client with ONE read outstanding.  `Tpp.Model.Reads` makes the posted reads explicit: a
+client keeps `k ≥ 1` reads posted and re-arms one from inside every handler invocation; a delivery completes the oldest
+posted read. -/
+
+/-- **never stalls, whatever the window**: no delivery finds the client without a posted read; the handlers run in the
+    order the reads were posted (the n-th delivery is served by the n-th read), each exactly once, with exactly the tokens
+    of its own delivery – the same token lists as for the single-read client – and the window stays full -/
+theorem C06_window_never_stalls (k : Nat) (hk : 1 ≤ k) (st0 : PState) (chunks : List (List Byte)) :
+    let s := (RState.postN k { parser := st0 }).deliverAll chunks
+    s.lost = [] ∧ s.served.map (·.1) = List.range' 0 chunks.length ∧
+      s.served.map (·.2) = (deliverAll chunks st0).tokenLists ∧ s.posted.length = k := by
+  intro s
+  have h := windowed_run k hk st0 chunks [] _ (windowed_init k st0)
+  simp only [List.nil_append] at h
+  exact ⟨h.lost, h.ids, h.toks, by rw [h.posted]; simp⟩
+
+/-- the hypothesis `1 ≤ k` is needed: a client that posts no read gets no callback at all -/
+theorem C06_no_read_posted (st0 : PState) (chunks : List (List Byte)) :
+    ((RState.postN 0 { parser := st0 }).deliverAll chunks).served = [] ∧
+    ((RState.postN 0 { parser := st0 }).deliverAll chunks).lost = chunks := by
+  have : ∀ (cs : List (List Byte)) (s : RState), s.posted = [] →
+      (s.deliverAll cs).served = s.served ∧ (s.deliverAll cs).lost = s.lost ++ cs := by
+    intro cs
+    induction cs with
+    | nil => intro s _; simp [RState.deliverAll]
+    | cons c cs ih =>
+      intro s hs
+      have h1 : s.deliver c = { s with lost := s.lost ++ [c] } := by simp [RState.deliver, hs]
+      have := ih (s.deliver c) (by rw [h1]; exact hs)
+      simp only [RState.deliverAll, List.foldl_cons] at this ⊢
+      rw [this.1, this.2, h1]
+      simp
+  simpa [RState.postN] using this chunks { parser := st0 } rfl
+
+-- non-vacuity: a window of three reads, `ESC [ 5 A a` cut into five deliveries
+example : ((RState.postN 3 { parser := st0 }).deliverAll chunks0).served.map (·.1) = [0, 1, 2, 3, 4]
+    ∧ ((RState.postN 3 { parser := st0 }).deliverAll chunks0).posted = [5, 6, 7] := by decide
 
 end Tpp.Props.C06
